@@ -287,13 +287,22 @@ Definition obs_eqb (a b : obs) : bool :=
     && (q1 =? q2) && list_eqb Bool.eqb c1 c2 && list_eqb sobs_eqb s1 s2
   end.
 
-Fixpoint run_check (k : cfg) (p : pool) (h : list (op * obs)) : bool :=
-  match h with
-  | [] => true
-  | (o, ob) :: h' => let (p', r) := step k p o in obs_eqb (observe p' r) ob && run_check k p' h'
+(* one harness step may stand for several model operations in a row (e.g. a NewStream whose fresh connection is closed
+   by the upstream while it is being dialled = NewStream, ConnClose, Send); the result is that of the first one that has one *)
+Fixpoint step_multi (k : cfg) (p : pool) (os : list op) : pool * res :=
+  match os with
+  | [] => (p, RN)
+  | o :: os' => let (p1, r1) := step k p o in let (p2, r2) := step_multi k p1 os' in
+                (p2, match r1 with RN => r2 | _ => r1 end)
   end.
 
-Definition pool_case := (kind * Z * Z * list (op * obs))%type.
+Fixpoint run_check (k : cfg) (p : pool) (h : list (list op * obs)) : bool :=
+  match h with
+  | [] => true
+  | (os, ob) :: h' => let (p', r) := step_multi k p os in obs_eqb (observe p' r) ob && run_check k p' h'
+  end.
+
+Definition pool_case := (kind * Z * Z * list (list op * obs))%type.
 Definition pool_case_ok (sw : switches) (c : pool_case) : bool :=
   match c with (kd, mc, mr, h) => run_check (mkCfg kd mc mr sw) init h end.
 Fixpoint pool_mismatches_from {A} (ok : A -> bool) (i : nat) (l : list A) : list nat :=
